@@ -500,6 +500,45 @@ func (c *Chain) ExecBlock(b BlockSpec) *BlockTrace {
 		}
 	}
 	b.Absent = effAbsent
+	// Upper-case spellings of a validator address are explored only where the outcome does not depend on which spelling
+	// the chain has stored (DESIGN.md §13): a re-application by an operator that is pending or has a validator record,
+	// and SetPower / RemovePending aimed at a pending application; the operator must not be mentioned twice in the block.
+	{
+		mention := map[int]int{}
+		anyUpper := false
+		for _, t := range b.Txs {
+			for _, m := range t.Msgs {
+				switch m.Kind {
+				case "create", "setpower", "remove", "removepending", "unjail":
+					mention[m.Val]++
+				}
+				anyUpper = anyUpper || m.Upper
+			}
+		}
+		if anyUpper {
+			snap := c.Snap()
+			pend := map[int]bool{}
+			for _, p := range snap.Pending {
+				pend[p.Oper] = true
+			}
+			txsCopy := make([]TxSpec, len(b.Txs))
+			for i, t := range b.Txs {
+				txsCopy[i] = TxSpec{Msgs: append([]MsgSpec(nil), t.Msgs...)}
+				for j, m := range txsCopy[i].Msgs {
+					if !m.Upper {
+						continue
+					}
+					_, isVal := snap.Vals[m.Val]
+					ok := mention[m.Val] == 1 && m.Val >= 0 && m.Val < poolSize &&
+						((m.Kind == "create" && (pend[m.Val] || isVal)) || ((m.Kind == "setpower" || m.Kind == "removepending") && pend[m.Val]))
+					if !ok {
+						txsCopy[i].Msgs[j].Upper = false
+					}
+				}
+			}
+			b.Txs = txsCopy
+		}
+	}
 	bt.Spec = b
 	var txs [][]byte
 	bump := map[int]uint64{}
